@@ -263,7 +263,7 @@ class C19(Prop):
     id = 'C19'
     rule = ('histories of 1-3 waves of 0-4 simultaneous remote events between a real node Server (1-2 connections, optional extra '
             'hostile connection) and real node Clients wired without sockets; JSON args/kwargs incl. >4 KiB, delimiter and '
-            '"value": texts; name-based send/receive firewalls; packet streams cut into reads of generated sizes (<=4096); forged '
+            '"value": texts, enumerated events of 70 kB..1.1 MB (thorough 4.3 MB); name-based send/receive firewalls incl. receive predicates that raise; a process holding two connections (results must go to the connection their call arrived on); packet streams cut into reads of generated sizes (<=4096); forged '
             'hostile packets (mutated call/value packets incl. non-boolean feedback fields, junk, oversized; forged calls are '
             'answered by handlers returning a value/coroutine/None/raising) and hostile metadata (every attribute name the '
             'dispatcher source mentions) added to genuine packets in transit; handler kinds incl. one raising next to a '
